@@ -378,53 +378,60 @@ func (g *uciGen) idle(w *uciWorld) {
 		if r.IntN(12) == 0 {
 			g.send(pick(r, []string{"fen", "eval", "perft 1", "perft 2", "spsa"}))
 		}
-		pos := g.positionLine()
-		if g.newGameNext {
-			g.send("ucinewgame")
-			g.newGameNext = false
-		}
-		g.send(pos)
-		line, selfEnds, ponder := g.goLine()
-		g.cur = genGo{ponder: ponder}
-		if selfEnds {
-			g.cur.limit = 15 + r.IntN(60)
-		} else {
-			g.cur.limit = 2 + r.IntN(40)
-		}
-		for _, f := range tinyTreeFENs {
-			if g.game.Start.FEN() == f {
-				// let the search run long enough to hit the ply cap by itself
-				g.cur.bigQuanta = true
-				g.cur.limit = 40 + r.IntN(60)
-			}
-		}
-		if g.cfg.Stub {
-			sg := StubGo{Move: "e2e4"}
-			if l := g.game.Cur().Legal(); len(l) > 0 {
-				sg.Move = pick(r, l).String()
-			} else {
-				sg.Move = "0000"
-			}
-			for i, n := 0, r.IntN(9); i < n; i++ {
-				if i%2 == 0 {
-					sg.Lines = append(sg.Lines, fmt.Sprintf("info depth %d score cp %d nodes %d time %d hashfull 0 pv %s", i+1, r.IntN(200)-100, (i+1)*1000, i, strings.Repeat(sg.Move+" ", 1+r.IntN(40))+sg.Move))
-				} else {
-					sg.Lines = append(sg.Lines, fmt.Sprintf("info depth %d nodes %d", i+1, i))
-				}
-			}
-			if selfEnds && r.IntN(2) == 0 {
-				sg.SelfEndUS = int64(1 + r.IntN(2_000_000))
-			}
-			g.sc.Stubs = append(g.sc.Stubs, sg)
-		}
-		g.send(line)
-		if r.IntN(10) == 0 {
-			// the next command is already in the pipe when the go line is read
-			g.send(pick(r, []string{"stop", "isready", "isready"}))
-		}
-		g.stage = 2
-		g.goCount++
+		g.issueGo()
 	}
+}
+
+// issueGo writes the next position and go lines (with the script of the stub
+// search that will serve it).
+func (g *uciGen) issueGo() {
+	r := g.rng
+	pos := g.positionLine()
+	if g.newGameNext {
+		g.send("ucinewgame")
+		g.newGameNext = false
+	}
+	g.send(pos)
+	line, selfEnds, ponder := g.goLine()
+	g.cur = genGo{ponder: ponder}
+	if selfEnds {
+		g.cur.limit = 15 + r.IntN(60)
+	} else {
+		g.cur.limit = 2 + r.IntN(40)
+	}
+	for _, f := range tinyTreeFENs {
+		if g.game.Start.FEN() == f {
+			// let the search run long enough to hit the ply cap by itself
+			g.cur.bigQuanta = true
+			g.cur.limit = 40 + r.IntN(60)
+		}
+	}
+	if g.cfg.Stub {
+		sg := StubGo{Move: "e2e4"}
+		if l := g.game.Cur().Legal(); len(l) > 0 {
+			sg.Move = pick(r, l).String()
+		} else {
+			sg.Move = "0000"
+		}
+		for i, n := 0, r.IntN(9); i < n; i++ {
+			if i%2 == 0 {
+				sg.Lines = append(sg.Lines, fmt.Sprintf("info depth %d score cp %d nodes %d time %d hashfull 0 pv %s", i+1, r.IntN(200)-100, (i+1)*1000, i, strings.Repeat(sg.Move+" ", 1+r.IntN(40))+sg.Move))
+			} else {
+				sg.Lines = append(sg.Lines, fmt.Sprintf("info depth %d nodes %d", i+1, i))
+			}
+		}
+		if selfEnds && r.IntN(2) == 0 {
+			sg.SelfEndUS = int64(1 + r.IntN(2_000_000))
+		}
+		g.sc.Stubs = append(g.sc.Stubs, sg)
+	}
+	g.send(line)
+	if r.IntN(10) == 0 {
+		// the next command is already in the pipe when the go line is read
+		g.send(pick(r, []string{"stop", "isready", "isready"}))
+	}
+	g.stage = 2
+	g.goCount++
 }
 
 func (g *uciGen) during(w *uciWorld) {
@@ -463,6 +470,16 @@ func (g *uciGen) during(w *uciWorld) {
 		}
 	}
 	if c.stopSent {
+		if !c.drained && g.cfg.SweepStop == 0 && g.turns+1 < g.cfg.MaxTurns && r.IntN(5) == 0 {
+			// a GUI that does not wait for the bestmove: the next position and go
+			// follow the stop at once and are queued behind the unwinding search
+			if r.IntN(3) == 0 {
+				g.send("isready")
+			}
+			g.turns++
+			g.issueGo()
+			return
+		}
 		if !c.drained {
 			c.drained = true
 			if r.IntN(3) == 0 {
